@@ -1,5 +1,6 @@
 use crate::CheckDef;
 
+pub mod c01;
 pub mod c17;
 pub mod c20;
 pub mod c21;
@@ -11,6 +12,16 @@ pub mod c29;
 
 pub fn registry() -> &'static [CheckDef] {
     &[
+        CheckDef {
+            id: "C01",
+            level: "exploration",
+            rule: "One case = 1-3 generated tables (id, a, b INTEGER, c VARCHAR; 0..7 rows; NULL density 0/15/40/100 %, duplicates, empty tables) loaded identically into vibesql and an in-memory SQLite, then 10 generated queries: plain selects (3VL predicates, + - *, CASE, COALESCE, IN lists with NULL, BETWEEN, scalar/IN/EXISTS subqueries correlated or not, INNER/LEFT/CROSS/comma joins, derived tables, DISTINCT), aggregate selects (COUNT/SUM/AVG/MIN/MAX [DISTINCT], GROUP BY, HAVING) and UNION/INTERSECT/EXCEPT [ALL]; ORDER BY over all output columns makes the sequence (and LIMIT/OFFSET) comparable, otherwise multisets are compared by value (1e-9 relative tolerance for non-integral numbers). INTERSECT ALL / EXCEPT ALL are judged against multiset algebra over the reference's operand results. A failing case is shrunk greedily (AST simplifications, then rows) and its signature is discrepancy kind + feature tags of the shrunken query. distinct = (shape, feature-tag set) of queries on which both engines answered and agreed.",
+            floor: 200,
+            shards: 16,
+            cpu_budget_ms: 60_000,
+            run: c01::run,
+            assumptions: &["bundled SQLite 3.46 is the reference; NULLS LAST is requested from it because vibesql documents NULLs-last ordering", "no division, modulo, LIKE, string-number comparison or values near the i64 limits (dialects differ there)"],
+        },
         CheckDef {
             id: "C17",
             level: "exploration",
